@@ -543,6 +543,7 @@ fn seq_case(case_seed: u64, r: &mut Report) {
 // ------------------------------------------------------------------------------------------------
 
 #[derive(Clone, Debug)]
+#[allow(dead_code)] // every field is shown in the recorded history
 enum OpKind {
     CreateNode,
     CreateEdge { from: u64, to: u64, directed: bool },
@@ -1119,7 +1120,7 @@ fn main() {
 
     let mut floors: Vec<(&'static str, u64)> = Vec::new();
     if run_seq {
-        let n = args.by_tier(1_500u64, 40_000u64);
+        let n = args.by_tier(3_000u64, 60_000u64);
         let rep = par_cases(args.threads, args.seed ^ 0x5E0, n, args.budget(25, 300), |_i, s, r| seq_case(s, r));
         total.merge(rep);
         floors.push(("seq_programs", 100));
@@ -1130,7 +1131,7 @@ fn main() {
         // each round spawns 2-8 threads of its own: a quarter of the cores as round runners gives ~2x
         // oversubscription, which is what makes the interleavings diverse
         let workers = (args.threads / 3).max(2);
-        let n = args.by_tier(1_200u64, 40_000u64);
+        let n = args.by_tier(2_500u64, 60_000u64);
         let rep = par_cases(workers, args.seed ^ 0x57E, n, args.budget(25, 300), |_i, s, r| stress_case(s, r));
         total.merge(rep);
         floors.push(("stress_rounds", 50));
